@@ -59,6 +59,64 @@ type docCase struct {
 	DecKeyNameLen int `json:"decryption_key_name_len,omitempty"` // > 0: DecryptionKeyName is longName(len)
 	WfkLen        int `json:"wrapped_key_len,omitempty"`         // > 32: WrapKeyFn returns that many bytes; -1: an EMPTY wrapped key (the matching UnwrapKeyFn returns the file key for it)
 	HdrLen        int `json:"expected_header_len,omitempty"`     // header length these options produce (0 = not computed)
+	// callbacks that write to their arguments (the contract is about VALUES at call time: unwrap(wrap(k)) = k)
+	WrapMode   string `json:"wrap_mode,omitempty"`   // zero-after | in-place | append7 | append16
+	UnwrapMode string `json:"unwrap_mode,omitempty"` // wipe-wrapped | reuse-buffer
+}
+
+var appendTag = []byte{0xa1, 0xa2, 0xa3, 0xa4, 0xa5, 0xa6, 0xa7, 0xa8, 0xa9, 0xaa, 0xab, 0xac, 0xad, 0xae, 0xaf, 0xb0}
+
+// wrapCall is the harness's WrapKeyFn body; depending on WrapMode it writes to its argument.
+func (c docCase) wrapCall(k []byte) []byte {
+	switch c.WrapMode {
+	case "zero-after": // wipes the plaintext key once the wrapped key has been computed
+		w := c.wrapFor(k)
+		for i := range k {
+			k[i] = 0
+		}
+		return w
+	case "in-place": // wraps in place and returns the same slice (like CryptBlocks(k, k))
+		for i := range k {
+			k[i] ^= byte(0x5c + i)
+		}
+		return k
+	case "append7": // appends a short trailer to its argument (fits a spare capacity of 7)
+		return append(k, appendTag[:7]...)
+	case "append16":
+		return append(k, appendTag...)
+	}
+	return c.wrapFor(k)
+}
+
+// wrapValue is the wrapped key as a VALUE, computed from a copy of the file key.
+func (c docCase) wrapValue(fk []byte) []byte {
+	switch c.WrapMode {
+	case "in-place":
+		return wrapMask(fk)
+	case "append7":
+		return append(append([]byte(nil), fk...), appendTag[:7]...)
+	case "append16":
+		return append(append([]byte(nil), fk...), appendTag...)
+	}
+	return c.wrapFor(fk)
+}
+
+// unwrapValue inverts wrapValue.
+func (c docCase) unwrapValue(w []byte) []byte {
+	if strings.HasPrefix(c.WrapMode, "append") {
+		if len(w) > 32 {
+			w = w[:32]
+		}
+		return append([]byte(nil), w...)
+	}
+	return unwrapOf(w)
+}
+
+func (c docCase) mutating() string {
+	if c.WrapMode != "" || c.UnwrapMode != "" {
+		return ":mutating-wrap"
+	}
+	return ""
 }
 
 func plainOf(c docCase) []byte { return lib.NewRand(c.PlainSeed).Bytes(c.PlainLen) }
@@ -116,6 +174,12 @@ func headerLenOf(c docCase) int {
 	}
 	if c.WfkLen < 0 {
 		wl = 0
+	}
+	switch c.WrapMode {
+	case "append7":
+		wl = 39
+	case "append16":
+		wl = 48
 	}
 	m := struct {
 		K   string `json:"k,omitempty"`
@@ -188,7 +252,7 @@ func runDoc(c docCase) docObs {
 		WrapKeyFn: func(k []byte, alg, kn string, nonce []byte) ([]byte, []byte, error) {
 			o.fk = append([]byte(nil), k...)
 			o.wrapAlg, o.wrapKey = alg, kn
-			return c.wrapFor(k), nil, nil
+			return c.wrapCall(k), nil, nil
 		},
 	}
 	if c.Cipher != "" {
@@ -213,6 +277,7 @@ func runDoc(c docCase) docObs {
 	}
 	mid := c.Mid
 	mid.Data = o.doc
+	var ubuf []byte
 	gerr = encx.Guard(60*time.Second, func() error {
 		r, err := enc.Decrypt(mid.Reader(), enc.DecryptOptions{KeyName: c.Override,
 			UnwrapKeyFn: func(w []byte, alg, kn string, nonce, tag []byte) ([]byte, error) {
@@ -221,11 +286,25 @@ func runDoc(c docCase) docObs {
 				if len(w) == 0 && c.WfkLen < 0 {
 					return append([]byte(nil), o.fk...), nil // the unwrap function that matches a WrapKeyFn with an empty wrapped key
 				}
-				return unwrapOf(w), nil
+				k := c.unwrapValue(w)
+				switch c.UnwrapMode {
+				case "wipe-wrapped": // wipes its argument after use
+					for i := range w {
+						w[i] = 0
+					}
+				case "reuse-buffer": // returns a slice of a buffer its owner overwrites later
+					ubuf = make([]byte, len(k))
+					copy(ubuf, k)
+					return ubuf, nil
+				}
+				return k, nil
 			}})
 		if err != nil {
 			o.decErr = err
 			return nil
+		}
+		for i := range ubuf { // the callback's owner reuses its buffer as soon as Decrypt has returned
+			ubuf[i] = 0xEE
 		}
 		o.plain, o.decTerm = encx.Drain(r, c.Out)
 		return nil
@@ -366,6 +445,24 @@ func genDocs(tier string, rng *lib.Rand, search bool) []docCase {
 		c.HdrLen = headerLenOf(c)
 		cases = append(cases, c)
 	}
+	// callbacks that write to their arguments: the contract unwrap(wrap(k)) = k holds for the VALUES at call time
+	for _, wm := range []string{"zero-after", "in-place", "append7", "append16", ""} {
+		for _, um := range []string{"", "wipe-wrapped", "reuse-buffer"} {
+			if wm == "" && um == "" {
+				continue
+			}
+			for _, pl := range []int{0, 10, S + 1} {
+				if pl == S+1 && tier == "quick" && !search && um != "" {
+					continue
+				}
+				c := mk(j, pl)
+				j++
+				c.WrapMode, c.UnwrapMode = wm, um
+				c.HdrLen = headerLenOf(c)
+				cases = append(cases, c)
+			}
+		}
+	}
 	// key-name option table, exhaustively over empty/non-empty
 	for _, dk := range []string{"", "dk"} {
 		for _, omit := range []bool{false, true} {
@@ -469,7 +566,13 @@ func checkDoc(res *lib.Result, drv *lib.Drv, real bool, c docCase, rng *lib.Rand
 	}
 	p := plainOf(c)
 	hl := headerLenOf(c)
-	hc := hdrClass(hl)
+	hc := hdrClass(hl) + c.mutating()
+	if c.WrapMode != "" {
+		res.Hit("doc.wrap_mode=" + c.WrapMode)
+	}
+	if c.UnwrapMode != "" {
+		res.Hit("doc.unwrap_mode=" + c.UnwrapMode)
+	}
 	res.Hit("doc.header" + hdrBucket(hl))
 	if o.encErr != nil && hl > 65536 && strings.Contains(o.encErr.Error(), "header is too long") {
 		// the code's own limit (SignHeader: "The header must not be bigger than 64KB"): Encrypt refuses.
@@ -519,7 +622,7 @@ func checkDoc(res *lib.Result, drv *lib.Drv, real bool, c docCase, rng *lib.Rand
 		if !bytes.Equal(ip, p) {
 			res.Violate("layout-independent-plaintext", "independent decoder yields a different plaintext", c)
 		}
-		if im.K != expectKeyName(c) || im.KW != algID[canonAlg[c.Alg]] || im.Cph != cphID[c.Cipher] || !bytes.Equal(im.WFK, c.wrapFor(o.fk)) {
+		if im.K != expectKeyName(c) || im.KW != algID[canonAlg[c.Alg]] || im.Cph != cphID[c.Cipher] || !bytes.Equal(im.WFK, c.wrapValue(o.fk)) {
 			res.Violate("manifest-fields", fmt.Sprintf("manifest %+v", im), c)
 		}
 		nseg := (len(p) + 65535) / 65536
@@ -576,7 +679,7 @@ func checkDoc(res *lib.Result, drv *lib.Drv, real bool, c docCase, rng *lib.Rand
 		var derr, dterm error
 		gerr := encx.Guard(60*time.Second, func() error {
 			r, err := enc.Decrypt(mid.Reader(), enc.DecryptOptions{KeyName: c.Override,
-				UnwrapKeyFn: func(w []byte, alg, kn string, nonce, tag []byte) ([]byte, error) { return unwrapOf(w), nil }})
+				UnwrapKeyFn: func(w []byte, alg, kn string, nonce, tag []byte) ([]byte, error) { return c.unwrapValue(w), nil }})
 			if err != nil {
 				derr = err
 				return nil
@@ -664,7 +767,7 @@ func checkOversized(res *lib.Result, drv *lib.Drv, real bool, c docCase, p []byt
 	var derr, dterm error
 	gerr := encx.Guard(60*time.Second, func() error {
 		r, err := enc.Decrypt(mid.Reader(), enc.DecryptOptions{KeyName: c.Override,
-			UnwrapKeyFn: func(w []byte, alg, kn string, nonce, tag []byte) ([]byte, error) { return unwrapOf(w), nil }})
+			UnwrapKeyFn: func(w []byte, alg, kn string, nonce, tag []byte) ([]byte, error) { return c.unwrapValue(w), nil }})
 		if err != nil {
 			derr = err
 			return nil
